@@ -17,8 +17,9 @@ run_demo() {
     cargo build -q --offline -p iwe 2>/dev/null
     bash $D/$DEMO $WT/target/debug/iwe >/tmp/demo-$P-$N.log 2>&1; echo $?
   else
-    cp $D/$DEMO $WT/$DEST
+    mkdir -p $(dirname $WT/$DEST); cp $D/$DEMO $WT/$DEST
     crate=$(echo $DEST | cut -d/ -f2); name=$(basename $DEST .rs)
+    if [ -n "${PRE_BUILD:-}" ]; then ( cd $WT && eval "$PRE_BUILD" >/dev/null 2>&1 ); fi
     timeout 600 cargo test -p $crate --offline --test $name >/tmp/demo-$P-$N.log 2>&1; echo $?
   fi
 }
